@@ -33,9 +33,10 @@ pub fn plan(data: &[u8], max_iter: usize, max_keep: usize) -> AllocPlan {
 
 /// kinds beyond the first twelve: 12 and 13 create ranges whose bounds change with every iteration
 /// (a loop range, a slice), 14 imports a module that does not compile and one that does (needs the
-/// modules of `loop_modules` in the loader)
+/// modules of `loop_modules` in the loader), 15 is a class declaration that fails half-way, 16 allocates
+/// several objects in one native call or opcode
 pub const KINDS_WITH_RANGES: usize = 14;
-pub const KINDS_WITH_IMPORTS: usize = 15;
+pub const KINDS_WITH_IMPORTS: usize = 17;
 
 pub fn loop_modules() -> Vec<(String, String)> {
     vec![
@@ -165,6 +166,33 @@ fn garbage(kind: usize, out: &mut Vec<Stmt>) {
             )));
             out.push(Stmt::new(StmtKind::Import("goodmod".into(), None)));
             out.push(acc_add(Expr::invoke(v("goodmod"), "one", vec![])));
+        }
+        15 => {
+            // a class declaration that fails half-way (its superclass is not a class), caught
+            out.push(Stmt::var("notaclass", Some(v("i"))));
+            out.push(Stmt::new(StmtKind::Try(
+                vec![Stmt::new(StmtKind::Class(Rc::new(ClassDef {
+                    name: "Halfway".into(),
+                    superclass: Some("notaclass".into()),
+                    default_ctor: Some("new".into()),
+                    methods: vec![],
+                    attr_line: Cell::new(0),
+                })))],
+                Some(("e".into(), vec![acc_add(n(1.0))])),
+                None,
+            )));
+        }
+        16 => {
+            // natives and opcodes that allocate several objects in one go: the entries of a map with a
+            // dozen entries, a closure over three variables
+            out.push(Stmt::var("mm", Some(Expr::MapLit((0..12).map(|k| (n(k as f64), Expr::VecLit(vec![v("i")]))).collect(), ln()))));
+            out.push(acc_add(Expr::invoke(Expr::invoke(v("mm"), "items", vec![]), "len", vec![])));
+            out.push(acc_add(Expr::invoke(Expr::invoke(v("mm"), "keys", vec![]), "len", vec![])));
+            out.push(Stmt::var("c1", Some(v("i"))));
+            out.push(Stmt::var("c2", Some(Expr::VecLit(vec![v("i")]))));
+            out.push(Stmt::var("c3", Some(n(3.0))));
+            out.push(Stmt::var("g", Some(lam("lambda-7", &[], Expr::bin(BinOp::Add, Expr::bin(BinOp::Add, v("c1"), Expr::invoke(v("c2"), "len", vec![])), v("c3"))))));
+            out.push(acc_add(Expr::callv("g", vec![])));
         }
         _ => {
             // strings from a fixed pool (interned strings are retained by design)
